@@ -689,6 +689,16 @@ def bits(a):
     return np.ascontiguousarray(np.asarray(a, dtype="float64")).view(np.uint64)
 
 
+def same_values(a, b):
+    """Bitwise equality, except that any NaN equals any NaN: which NaN payload an arithmetic result
+    carries depends on the SIMD code path numpy happens to take, not on the inputs alone."""
+    a = np.asarray(a, dtype="float64")
+    b = np.asarray(b, dtype="float64")
+    if a.shape != b.shape:
+        return False
+    return bool(np.all((bits(a) == bits(b)) | (np.isnan(a) & np.isnan(b))))
+
+
 def same_bits(a, b):
     a = np.asarray(a)
     b = np.asarray(b)
